@@ -377,3 +377,6 @@ def check(ctx) -> None:
 
     ctx.rule("C11-X6", "failed / timed-out jobs keep their position in every per-condition table", 1)
     c10.totals_alignment(ctx, "C11-X6")
+    # X9: a reaction whose search failed under every condition has no entry in the result tables; the results of the
+    # others are attached through the id -> index map, never by position (shared with C06-B2)
+    c06.rule_b2(ctx, pl, "C11-X9")
